@@ -225,14 +225,12 @@ func (m *lm) c07Resubmit(moved map[ref.Hash]struct{}, k int) {
 	}
 	for j := 0; j < k; j++ {
 		h := hs[rapid.IntRange(0, len(hs)-1).Draw(m.rt, "resubmitIdx")]
-		v := m.w.Arch.V[h]
 		before := m.snaps[A].Digest(true)
 		var res sim.Result
 		kind := "vertex"
 		if rapid.Bool().Draw(m.rt, "resubmitTx") {
 			kind = "transaction"
-			res = m.w.ProposeTx(A, v.Transaction)
-			m.w.Ops = append(m.w.Ops, sim.Op{K: "repropose", N: A, V: m.w.OrderIndex(h)})
+			res = m.w.Apply(sim.Op{K: "repropose", N: A, V: m.w.OrderIndex(h)})
 		} else {
 			res = m.w.Apply(sim.Op{K: "deliver", N: A, V: m.w.OrderIndex(h)})
 		}
